@@ -63,6 +63,8 @@ def units(tier, seed):
     for limit in range(31):
         out.append(dict(kind="limit", limit=limit))
     out.append(dict(kind="limit_arg"))
+    for limit in CONTAINER_LIMITS:
+        out.append(dict(kind="limit_containers", limit=limit))
     dep = _depth(tier)
     nw = len(_w_ops())
     # iterate the bound: depth 1, 2, ... first, so the first counterexample is the shortest
@@ -95,6 +97,8 @@ def run_unit(unit, ctx):
         _limit(unit["limit"], ctx)
     elif k == "limit_arg":
         _limit_arg(ctx)
+    elif k == "limit_containers":
+        _limit_containers(unit["limit"], ctx)
     elif k == "hist_w":
         _hist(unit, ctx, "w")
     elif k == "hist_a":
@@ -113,6 +117,8 @@ def replay(case, ctx):
         _contig(ctx)
     elif k == "limit_arg":
         _limit_arg(ctx)
+    elif k == "limit_containers":
+        _limit_containers(case["limit"], ctx)
 
 
 # ------------------------------------------------------------------------------------ (a) inputs
@@ -334,6 +340,108 @@ def _limit_arg(ctx):
             accepted = False
         if accepted != ok:
             ctx.viol("Address:limit_not_passed_down", case, accepted, ok)
+
+
+CONTAINER_LIMITS = [0, 1, 2, 4, 16, 17, 20, 30]
+CONTAINER_MASKS = {0: "0.0.0.255", 1: "0.0.1.0", 2: "0.0.3.0", 3: "0.0.5.4", 5: "0.0.31.0",
+                   17: "1.255.255.0", 18: "3.255.255.0"}
+
+
+def _container_sites(platform, wild, limit):
+    """(label, builder) - the builder returns the list of address objects that carry the mask, or
+    raises ValueError when the line is refused / dropped."""
+    import cisco_acl
+    from cisco_acl import Ace, AceGroup, Acl, AddrGroup, Address, AddressAg
+
+    adr = f"10.1.2.0 {wild}"
+    kw = dict(platform=platform, max_ncwb=limit)
+    head = "ip access-list extended A" if platform == "ios" else "ip access-list A"
+    ghead, gref = ("object-group network G", "object-group G") if platform == "ios" else \
+        ("object-group ip address G", "addrgroup G")
+
+    def need(items):
+        if not items:
+            raise ValueError("line dropped")
+        return items
+
+    def aces_of(items):
+        out = []
+        for o in items:
+            out.extend(aces_of(o.items) if hasattr(o, "items") and not isinstance(o, Ace) else [o])
+        return [o for o in out if isinstance(o, Ace)]
+
+    sites = [
+        ("Address", lambda: [Address(adr, **kw)]),
+        ("Ace.src", lambda: [Ace(f"permit ip {adr} any", **kw).srcaddr]),
+        ("Ace.dst", lambda: [Ace(f"permit tcp any {adr} eq 80", **kw).dstaddr]),
+        ("AceGroup", lambda: [a.srcaddr for a in need(aces_of(AceGroup(f"permit ip {adr} any", **kw).items))]),
+        ("Acl", lambda: [a.dstaddr for a in need(aces_of(Acl(f"{head}\n permit ip any {adr}", **kw).items))]),
+        ("Acl.grouped", lambda: [a.srcaddr for a in need(aces_of(
+            Acl(f"{head}\n remark = x\n permit ip {adr} any", group_by="= ", **kw).items))]),
+        ("acls", lambda: [a.srcaddr for a in need(aces_of(
+            cisco_acl.acls(f"{head}\n permit ip {adr} any", **kw)[0].items))]),
+        ("acls.group_by", lambda: [a.srcaddr for a in need(aces_of(
+            cisco_acl.acls(f"{head}\n remark = x\n permit ip {adr} any", group_by="= ", **kw)[0].items))]),
+        ("aces", lambda: [a.srcaddr for a in need(aces_of(
+            cisco_acl.aces(f"{head}\n permit ip {adr} any", **kw)))]),
+    ]
+    if platform == "ios":
+        sites.append(("Acl.standard", lambda: [a.srcaddr for a in need(aces_of(
+            Acl(f"ip access-list standard A\n permit {adr}", **kw).items))]))
+    if platform == "nxos":  # IOS group members are subnet masks: no non-contiguous form exists
+        sites += [
+            ("AddressAg", lambda: [AddressAg(f"10 {adr}", **kw)]),
+            ("AddrGroup", lambda: need(AddrGroup(f"{ghead}\n 10 {adr}", **kw).items)),
+            ("AddrGroup.items", lambda: need(AddrGroup(name="G", items=[f"10 {adr}"], **kw).items)),
+            ("addrgroups", lambda: need(need(cisco_acl.addrgroups(f"{ghead}\n 10 {adr}", **kw))[0].items)),
+            ("acls.members", lambda: need(need(aces_of(cisco_acl.acls(
+                f"{ghead}\n 10 {adr}\n{head}\n permit ip {gref} any", **kw)[0].items))[0].srcaddr.items)),
+            ("acls.members.group_by", lambda: need(need(aces_of(cisco_acl.acls(
+                f"{ghead}\n 10 {adr}\n{head}\n remark = x\n permit ip any {gref}", group_by="= ",
+                **kw)[0].items))[0].dstaddr.items)),
+        ]
+    return sites
+
+
+def _limit_containers(limit, ctx):
+    """The configured limit reaches every place where a mask is read: a container built with
+    max_ncwb=L accepts a line whose mask needs k non-contiguous bits iff k <= L, the accepted address
+    carries the limit L, and (small k) derives exactly 2^k prefixes."""
+    for platform in ("ios", "nxos"):
+        for k, wild in CONTAINER_MASKS.items():
+            for label, build in _container_sites(platform, wild, limit):
+                ctx.ev()
+                ctx.nt((platform, label, limit, k))
+                case = dict(kind="limit_containers", limit=limit, platform=platform, site=label,
+                            mask=wild, k=k)
+                try:
+                    objs = build()
+                except ValueError as ex:
+                    if k <= limit:
+                        ctx.viol(f"{label}:limit_rejects_allowed", case, repr(ex)[:200],
+                                 f"k={k} <= limit={limit}: accepted")
+                    else:
+                        ctx.out("limit_rejected")
+                    continue
+                except Exception as ex:  # noqa
+                    ctx.viol(f"{label}:limit_wrong_exception", case, repr(ex)[:200], "ValueError")
+                    continue
+                if k > limit:
+                    ctx.viol(f"{label}:limit_not_enforced", case, "accepted",
+                             f"rejected: k={k} > limit={limit}")
+                    continue
+                ctx.out("limit_accepted")
+                for o in objs:
+                    if o.max_ncwb != limit:
+                        ctx.viol(f"{label}:limit_not_passed_down", case, o.max_ncwb, limit)
+                        break
+                    if k <= 5:
+                        got = set(_nets(o.ipnets()))
+                        want = S.cube_prefixes(S.cube(S.ip2int("10.1.2.0"), S.ip2int(wild)))
+                        if got != want:
+                            ctx.viol(f"{label}:wrong_prefix_set", case, len(got), len(want))
+                            break
+    ctx.sample("limit_containers", dict(limit=limit, masks=CONTAINER_MASKS))
 
 
 # --------------------------------------------------------------------------------- (b) histories
